@@ -1,5 +1,6 @@
 use crate::engine::{Ctx, Fail};
 
+pub mod c01;
 pub mod c02;
 pub mod c03;
 pub mod c04;
@@ -21,6 +22,7 @@ pub mod c20;
 
 pub fn run(ctx: &Ctx) -> bool {
     match ctx.id.as_str() {
+        "C01" => c01::run(ctx),
         "C02" => c02::run(ctx),
         "C03" => c03::run(ctx),
         "C04" => c04::run(ctx),
@@ -47,6 +49,7 @@ pub fn run(ctx: &Ctx) -> bool {
 fn replay_one(ctx: &Ctx, sub: &str, input: &serde_json::Value) -> Option<Result<(), Fail>> {
     let _ = sub;
     Some(match ctx.id.as_str() {
+        "C01" => c01::replay(ctx, sub, input),
         "C02" => c02::replay(ctx, sub, input),
         "C03" => c03::replay(ctx, input),
         "C04" => c04::replay(ctx, sub, input),
